@@ -204,9 +204,20 @@ class _Optimizers(_Algorithm2D):
             1199-1205.
 
         """
-        y, baseline_func, _, method_kws, _ = self._setup_optimizer(
+        y, baseline_func, _, method_kws, fit_object = self._setup_optimizer(
             data, method, [polynomial], method_kwargs, False
         )
+        if fit_object is self:
+            # the polynomial order changes between the fits, so use a separate object to not
+            # modify this object's cached Vandermonde matrix while other threads may be using it
+            new_fitter = type(self)(
+                self.x, self.z, check_finite=self._check_finite, assume_sorted=True,
+                output_dtype=self._dtype
+            )
+            new_fitter.banded_solver = self.banded_solver
+            new_fitter._sort_order = self._sort_order
+            new_fitter._inverted_order = self._inverted_order
+            baseline_func = getattr(new_fitter, method.lower())
         sort_weights = weights is not None
         weight_array = _check_optional_array(
             self._shape, weights, check_finite=self._check_finite, ensure_1d=False, axis=slice(None)
